@@ -276,5 +276,15 @@ func UnknownAlphabet(md protoreflect.MessageDescriptor, lv Level) [][]byte {
 	two := protowire.AppendVarint(protowire.AppendTag(nil, a, protowire.VarintType), 1)
 	two = protowire.AppendBytes(protowire.AppendTag(two, hi, protowire.BytesType), nil)
 	out = append(out, two)
+	// a group holding every other wire type, a nested group with a length-delimited field among them
+	g2 := protowire.AppendTag(nil, b, protowire.StartGroupType)
+	g2 = protowire.AppendBytes(protowire.AppendTag(g2, 1, protowire.BytesType), []byte("in"))
+	g2 = protowire.AppendFixed32(protowire.AppendTag(g2, 2, protowire.Fixed32Type), 7)
+	g2 = protowire.AppendTag(g2, 3, protowire.StartGroupType)
+	g2 = protowire.AppendBytes(protowire.AppendTag(g2, 1, protowire.BytesType), []byte{1})
+	g2 = protowire.AppendTag(g2, 3, protowire.EndGroupType)
+	g2 = protowire.AppendFixed64(protowire.AppendTag(g2, 4, protowire.Fixed64Type), 9)
+	g2 = protowire.AppendTag(g2, b, protowire.EndGroupType)
+	out = append(out, g2)
 	return out
 }
